@@ -727,6 +727,8 @@ func scenAPI(out *scenOut, r *rng, thorough bool) {
 		endedBeforeItBegan(out, how)
 	}
 	runAgain(out)
+	waitBeforeRun(out, "quit")
+	waitBeforeRun(out, "kill")
 	manyLateCalls(out, "kill")
 	manyLateCalls(out, "quit")
 	// "Before the program starts, Send blocks until it is running"
@@ -1277,5 +1279,42 @@ func manyLateCalls(out *scenOut, cause string) {
 				Expected: "1200 calls return", Observed: fmt.Sprintf("stuck after %d calls", last)})
 			return
 		}
+	}
+}
+
+// waitBeforeRun: Wait called BEFORE Run (a supervisor goroutine started first) returns once Run has
+// completed, like every other Wait caller.
+func waitBeforeRun(out *scenOut, cause string) {
+	ctl := newRecCtl()
+	p := tea.NewProgram(recModel{c: ctl}, tea.WithInput(nil), tea.WithOutput(&safeBuffer{}), tea.WithoutSignalHandler())
+	desc := "three goroutines call Wait before Run is called; Run; " + cause
+	var waiters sync.WaitGroup
+	for i := 0; i < 3; i++ {
+		waiters.Add(1)
+		go func() { defer waiters.Done(); p.Wait() }()
+	}
+	time.Sleep(30 * time.Millisecond)
+	runDone := make(chan error, 1)
+	go func() { _, err := p.Run(); runDone <- err }()
+	waitFor(2*time.Second, func() bool { return ctl.log.has("view-exit", "") })
+	if cause == "kill" {
+		p.Kill()
+	} else {
+		p.Quit()
+	}
+	out.record("wait-before-run/"+cause, desc)
+	select {
+	case <-runDone:
+	case <-time.After(4 * time.Second):
+		out.fail(finding{Property: "C04", Class: "new", What: "Run does not return", Input: desc})
+		return
+	}
+	released := make(chan struct{})
+	go func() { waiters.Wait(); close(released) }()
+	select {
+	case <-released:
+	case <-time.After(2 * time.Second):
+		out.fail(finding{Property: "C13", Class: "new", What: "Wait called before Run never returns although Run has completed", Input: desc,
+			Expected: "Wait returns for every caller once Run has completed", Observed: "still blocked 2 s after Run returned"})
 	}
 }
